@@ -318,6 +318,7 @@ func init() {
 		run: func(c *Ctx) {
 			checkC12(c, budget(c.Tier, 400, 40000))
 			checkC12DefaultChanged(c, budget(c.Tier, 60, 2000))
+			checkC12AddOption(c, budget(c.Tier, 60, 2000))
 			runMixedCases(c, budget(c.Tier, 150, 15000), defaultProfile, []string{"parse", "iniparse", "iniwrite"}, 3, func(cr *CaseResult) { oracleNoPanic(c, cr) })
 		}}
 	props["C14"] = propRun{
